@@ -12,6 +12,7 @@ mod c02;
 mod p3forge;
 mod c05;
 mod c09;
+mod c14;
 mod c17;
 mod c18;
 
@@ -35,6 +36,7 @@ fn main() {
         "C02" => c02::run(&mut ctx),
         "C05" => c05::run(&mut ctx),
         "C09" => c09::run(&mut ctx),
+        "C14" => c14::run(&mut ctx),
         "C17" => c17::run(&mut ctx),
         "C18" => c18::run(&mut ctx),
         other => {
